@@ -104,6 +104,11 @@ def _process(unit, path, contracts, mode, out, depth=0):
                     out.extend(em2.text.rstrip('\n').split('\n'))
                     unit.segments.append({'kind': 'vacuity', 'name': arg, 'fn': fn.name + '__vac',
                                           'gline0': g0, 'gline1': len(out)})
+        elif d == 'dbgtable':
+            rel, name = arg.split()
+            text, info = X.emit_dbgtable(REPO, rel, name)
+            out.append(f'// ---- generated Debug table of {name} ({rel}:{info[1]}-{info[2]}): variant identifiers, #[derive(Debug)] checked')
+            out.extend(text.rstrip('\n').split('\n'))
         elif d == 'fmtfns':
             out.append('//@@FMTFNS@@')
         else:
